@@ -26,7 +26,7 @@ import threading
 from pv.core import InfraError, hx
 from pv import lib_sftp as L
 
-CODE_KIND = {1: "EOFError", 2: "IOError:ENOENT", 3: "IOError:EACCES"}
+CODE_KIND = {1: "EOFError", 2: "IOError:ENOENT", 3: "IOError:EACCES", 3000: "SSHException"}
 
 
 def kind_of_code(c):
@@ -213,6 +213,10 @@ def getfo_case(rng, tmpdir, remote, maxreq, stat_code, open_code, plan, mode, re
             i = consumed["n"]
             consumed["n"] += 1
             o = plan[i] if i < len(plan) else ("d", 10 ** 9)
+            if o[0] == "x":
+                consumed["failed"] = True
+                sess.dropped = True  # the server hangs up instead of answering
+                raise RuntimeError("pv: session dropped")
             if o[0] == "f":
                 consumed["failed"] = True
                 return o[1]
@@ -268,6 +272,8 @@ def transfer_case(ctx, rng, tmpdir, size, kind, fail_at, code, confirm, use_cb, 
         fs = sess.fs
         if kind in ("putfo", "put"):
             fs.write_fault = (lambda path, idx, off, d: code if idx == fail_at else None) if fail_at is not None else None
+            if code == "drop" and fail_at is not None:
+                fs.write_fault = lambda path, idx, off, d: "HANGUP" if idx == fail_at else None
             if kind == "putfo":
                 fsz = len(data) if claimed is None else claimed
                 fn = lambda: sess.client.putfo(io.BytesIO(data), "/up", fsz, cb, confirm)  # noqa: E731
@@ -290,6 +296,8 @@ def transfer_case(ctx, rng, tmpdir, size, kind, fail_at, code, confirm, use_cb, 
 
                 fs.stat_fault = sfault
             fs.read_fault = (lambda path, idx, off, ln: code if idx == fail_at else None) if fail_at is not None else None
+            if code == "drop" and fail_at is not None:
+                fs.read_fault = lambda path, idx, off, ln: "HANGUP" if idx == fail_at else None
             if kind == "getfo":
                 sink = io.BytesIO()
                 fn = lambda: sess.client.getfo("/down", sink, cb, prefetch, cap)  # noqa: E731
@@ -322,7 +330,8 @@ def run(ctx):
                 "bursts of >100 tiny writes to cross the drain threshold), stat, close, set_pipelined and explicit server "
                 "turns, write-fault plans over codes 1..8; distinct = distinct (program, fault plan); non-trivial = a "
                 "write was rejected or a drain happened. transfers: put/putfo/get/getfo, sizes 0..256 KiB (1 MiB "
-                "thorough), every failing chunk position x error code 2..8 x confirm/callback/prefetch/cap sampled")
+                "thorough), every failing chunk position x (error code 2..8 | the server hangs up: channel closed) x "
+                "confirm/callback/prefetch/cap sampled, putfo's file_size and the STAT-reported size free")
     ctx.trust("server answers every request once, in order (real SFTPServer._process inline / real loop threaded)")
     ctx.build()
     rng = ctx.rng
@@ -408,7 +417,9 @@ def run(ctx):
             maxreq = rng.choice([7, 64, 32768])
             plan = []
             for _ in range(rng.randrange(0, 12)):
-                plan.append(("f", rng.randrange(2, 9)) if rng.random() < 0.12 else ("d", rng.choice([1, 3, 50, 10 ** 9])))
+                r_ = rng.random()
+                plan.append(("f", rng.randrange(2, 9)) if r_ < 0.1 else ("x", 0) if r_ < 0.16 else
+                            ("d", rng.choice([1, 3, 50, 10 ** 9])))
             stat_code = rng.choice([0] * 12 + [2, 3, 4])
             open_code = rng.choice([0] * 12 + [2, 3, 4])
             mode = rng.choice(["getfo", "getfo", "get"])
@@ -422,6 +433,8 @@ def run(ctx):
                     "size_reported_by_stat": reported,
                     "plan": ["%s%d" % o for o in plan], "remote": hx(remote) if size <= 48 else "prng(%d)" % size}
             ctx.case(("get", mode, hx(remote), maxreq, tuple(plan), stat_code, open_code, reported), consumed["failed"] or size > 0)
+            if any(o[0] == "x" for o in plan):
+                ctx.dist("get:plan-with-session-drop")
             ctx.dist("get:stat-size:" + ("exact" if reported == size else "smaller" if reported < size else "larger"))
             ctx.dist("get:" + res.split(" ")[0].split(":")[0])
             if gi % 60 == 0:
@@ -456,7 +469,7 @@ def run(ctx):
             size = rng.choice([0, 1, 32768, 32769, 65536, rng.randrange(0, 200000), rng.randrange(0, hi + 1)])
             nchunks = max(1, -(-size // 32768))
             fail_at = None if rng.random() < 0.15 else rng.choice([0, nchunks - 1, rng.randrange(nchunks), nchunks])
-            code = rng.randrange(2, 9)
+            code = rng.randrange(2, 9) if rng.random() < 0.7 else "drop"  # an error status, or the server hangs up
             short = rng.choice([None, rng.randrange(1 << 20)]) if kind in ("get", "getfo") else None
             if short is not None and size > 120000:
                 size = rng.randrange(0, 120000)  # short reads multiply the number of round trips
@@ -468,6 +481,10 @@ def run(ctx):
             if kind != "put" and rng.random() < 0.6:
                 claimed = rng.choice([0, size, max(0, size - 1), rng.randrange(0, size + 1), rng.randrange(0, 70000),
                                       size + rng.randrange(1, 100000), 1, 32768])
+            if i == 2:  # designed: the server hangs up in the middle of a prefetching download
+                kind, size, fail_at, claimed, short, prefetch, code = "getfo", 200000, 3, None, None, True, "drop"
+            elif i == 3:  # … and in the middle of an upload
+                kind, size, fail_at, claimed, short, code = "putfo", 200000, 3, None, None, "drop"
             if i == 0:  # designed: putfo with a file_size estimate smaller than the stream
                 kind, size, fail_at, claimed, short = "putfo", 100000, None, 40000, None
             elif i == 1:  # designed: the server's STAT under-reports a file that is being downloaded with prefetch
@@ -476,6 +493,8 @@ def run(ctx):
                                           rng.random() < 0.5, prefetch, cap, short, claimed)
             ctx.case(("tr", repr(desc)), fail_at is not None)
             ctx.dist("transfer:%s:%s" % (kind, desc.get("outcome", "?").split(":")[0]))
+            if fail_at is not None:
+                ctx.dist("transfer:fault:" + ("session-dropped" if code == "drop" else "status"))
             if claimed is not None:
                 ctx.dist("transfer:claimed-size:" + ("exact" if claimed == size else "smaller" if claimed < size else "larger"))
             if i % 40 == 0:
@@ -497,7 +516,7 @@ META = {
               "rejected_pipelined_write_surfaces_by_close, client_never_hangs. get/getfo without prefetch under read "
               "faults and short reads: normal return => local bytes = remote bytes; a failed read / stat / open raises "
               "(getfo_normal_return_implies_local_equals_remote, get_..., failed_read_raises, "
-              "failed_stat_or_open_raises). getfo with prefetching (the default) on C28's concurrent model extended with "
+              "failed_stat_or_open_raises, dropped_session_raises: a server that hangs up instead of answering). getfo with prefetching (the default) on C28's concurrent model extended with "
               "failing requests: for every schedule, cap, short-read and failure pattern, if no read raised and the last "
               "read came back empty, the concatenation of everything read is the remote file "
               "(getfo_with_prefetch_normal_return_implies_local_equals_remote)."),
